@@ -740,7 +740,10 @@ def fold_tree(ix, e, env, depth=0):
         w = WIDTH.get(e[2])
         if not isinstance(v, int) or w is None:
             raise Undef("cast to %s" % e[2])
-        return v & ((1 << w) - 1)
+        v &= (1 << w) - 1
+        if env.get("__signed__") and e[2].startswith("i") and v >= 1 << (w - 1):
+            v -= 1 << w     # two's complement value of a signed target type
+        return v
     if k == "un":
         v = fold_tree(ix, e[2], env, depth + 1)
         if e[1] == "Not" and isinstance(v, int):
@@ -764,11 +767,11 @@ def fold_tree(ix, e, env, depth=0):
         elif op == "Div":
             if b == 0:
                 raise Undef("division by zero")
-            r = a // b
+            r = a // b if not env.get("__signed__") else int(a / b)      # Rust truncates toward zero
         elif op == "Rem":
             if b == 0:
                 raise Undef("remainder by zero")
-            r = a % b
+            r = a % b if not env.get("__signed__") else a - b * int(a / b)   # sign of the dividend
         elif op == "BitAnd":
             r = a & b
         elif op == "BitOr":
@@ -777,6 +780,10 @@ def fold_tree(ix, e, env, depth=0):
             r = a ^ b
         else:
             raise Undef("operator %s" % op)
+        if env.get("__signed__"):
+            if abs(r) > M64 >> 1:
+                raise Undef("%s overflows" % op)
+            return r     # signed arithmetic of the narrow integer types: intermediate values may be negative
         if r < 0 or r > M64:
             raise Undef("%s overflows" % op)
         return r
